@@ -213,37 +213,57 @@ def _producer(rec):
 
 def check_default_label(prog: Program, L: Ledger) -> None:
     """B2: finite case analysis of the label chosen for new atoms."""
+    from ..normalize import flat
+
     n = 0
     for ci in prog.classes.values():
-        f = ci.methods.get("on_atoms_changed")
-        if f is None:
+        f0 = ci.methods.get("on_atoms_changed")
+        if f0 is None:
             continue
-        # find `label = <expr>` whose expression mentions self.default_label
-        for st in walk_no_nested(f.node):
-            val = None
-            if isinstance(st, ast.Assign):
-                val = st.value
-            elif isinstance(st, ast.AnnAssign):
-                val = st.value
-            if val is None or "default_label" not in norm(val):
-                continue
+        f = flat(prog, f0, ci)
+        # the label-selection construct: `label = <expr mentioning default_label>` or an if-chain testing default_label
+        # that binds the label (the shape a helper with early returns takes once inlined)
+        sites = []
+
+        def find(stmts):
+            for st in stmts:
+                if isinstance(st, (ast.Assign, ast.AnnAssign)) and st.value is not None and "default_label" in norm(st.value):
+                    sites.append(st)
+                elif isinstance(st, ast.If) and "default_label" in norm(st.test):
+                    sites.append(st)
+                elif isinstance(st, (ast.If, ast.For, ast.While, ast.With, ast.Try)):
+                    for fld in ("body", "orelse", "finalbody"):
+                        find(getattr(st, fld, []) or [])
+                    for h in getattr(st, "handlers", []) or []:
+                        find(h.body)
+
+        find(f.body())
+        for st in sites:
             n += 1
             for case, av in (("0", AV("int0", "default_label")), ("-1 (do-not-touch)", AV("intneg", "default_label")), ("5", AV("intpos", "default_label")), ("None", AV("none", "default_label"))):
                 ev = CaseEval({"self.default_label": av})
                 try:
-                    got = ev.ev(val)
+                    if isinstance(st, ast.If):
+                        names = sorted({x.id for x in ast.walk(st) if isinstance(x, ast.Name) and isinstance(x.ctx, ast.Store)})
+                        ev.run([st])
+                        vals = [ev.env[k] for k in names if k in ev.env]
+                        got = vals[0] if len(vals) == 1 else None
+                        if len(vals) > 1:
+                            raise AnalysisError(f"{f.qualname}: label selection `{norm(st.test)[:60]}` binds several names {names}")
+                    else:
+                        got = ev.ev(st.value)
                 except Undecided:
                     got = None
                 cons = f"{f.qualname}[default_label={case}]"
                 where = f"{f.module.relpath}:{st.lineno}"
                 if case == "None":
-                    L.check(got is None or got.origin != "default_label", "B2", cons, where, "with no configured label the expression must fall back to an automatic label", "", norm(st))
+                    L.check(got is None or got.origin != "default_label", "B2", cons, where, "with no configured label the expression must fall back to an automatic label", "", norm(st)[:120])
                     continue
                 if got is None:
-                    raise AnalysisError(f"{f.qualname}: label expression `{norm(val)[:80]}` undecidable for default_label={case}")
+                    raise AnalysisError(f"{f.qualname}: label expression `{norm(st)[:80]}` undecidable for default_label={case}")
                 L.check(got.origin == "default_label", "B2", cons, where,
                         f"for default_label={case} the label given to new atoms is `{got}` instead of the configured value: `{norm(st)[:120]}`",
-                        f"default_label={case}: inserted atoms get an automatic label (they become displaceable/deletable although configured otherwise)", norm(st))
+                        f"default_label={case}: inserted atoms get an automatic label (they become displaceable/deletable although configured otherwise)", norm(st)[:160])
     L.floor("label-selection expressions using default_label", n, 1)
     # R-TRUTHY on the slot
     from ..truthy import scan_all
